@@ -143,7 +143,8 @@ Proof.
       rewrite <- E. rewrite app_assoc.
       split; [rewrite app_length; clear - Hl; lia|]. split; [rewrite Hs; symmetry; apply firstn_app_le; exact Hl|].
       split; [unfold rb_wf; cbn; rewrite app_length; lia|].
-      rewrite skipn_app_le by exact Hl. rewrite <- Hs, skipn_skipn'. reflexivity.
+      rewrite (skipn_app_le n (skipn (rb_dlen b) (rb_buf b) ++ got)) by exact Hl.
+      rewrite <- Hs, skipn_skipn'. reflexivity.
     + destruct R as (R1 & R2). split; [|exact R2].
       rewrite app_length, skipn_length. lia.
 Qed.
